@@ -129,7 +129,7 @@ Proof. exact C05_proofs.wrong_bucket_rejected_lemma. Qed.
    NOT modelled / NOT proved here: the reset strategy (NativeHistogramMinResetDuration > 0, timer), classic buckets
    (C02), exemplars; that every counted value lies in the bucket exposed for it (containment) and WHICH observations
    a Write counts (only how many) -- see the `_partial` names and checks/C05.json. *)
-From Verif Require Import Base.Conc Model.NativeConc Proofs.C05_conc Proofs.C05_cont.
+From Verif Require Import Base.Conc Model.NativeConc Proofs.C05_conc Proofs.C05_cont Proofs.C05_rt.
 
 (* (a) Every completed Write is self-consistent and no Write panics: no population is negative, bucket keys are
    strictly increasing, and the sample count is the zero bucket plus all positive and negative populations plus a
@@ -241,3 +241,31 @@ Theorem native_conc_scrape_contained_partial : forall (g : NativeHist.config) (p
     forall sg kk cell v, In (kk, cell) (if sg : bool then no_neg (list f64) ol else no_pos (list f64) ol) -> In v cell ->
       in_key (no_sch (list f64) ol) kk sg v = true.
 Proof. exact C05_cont.writes_contained_Z. Qed.
+
+(* ---------------- the real-time sandwich under concurrency (Proofs/C05_rt.v) ---------------- *)
+(* (d) On lmachine (the machine whose counters carry the observed values; zmachine is its image under `length`,
+   native_conc_machines_agree), for ALL configurations, programs and schedules, in every reachable configuration c and
+   for every completed Write w with exposition `out`: there is a list E of values such that
+   - `out` describes E: sample count = |E|, zero bucket ++ all buckets = the non-NaN members of E (goodE);
+   - MUST <= E: every value of an Observe call that had returned when w was invoked (Done: c_res <= c_inv w) is in E,
+     with multiplicity (sub A B: A ++ extra is a permutation of B);
+   - E <= MAY: E is contained in the values of the Observe calls invoked before w returned, finished (hist) or still
+     running in some thread (Ub c (c_res w)).
+   Multisets of VALUES (two calls observing the same value are not distinguished).  No reset is configured in the
+   machine. *)
+Theorem native_conc_real_time_sandwich : forall (g : NativeHist.config) (progs : list (list nop)) (sched : list Z),
+  let c := run_sched lmachine (init_config lmachine (C05_conc.linit g) progs) sched in
+  forall w out, In w (Conc.hist c) -> c_ret w = NOut (list f64) out ->
+  exists E : list f64, C05_rt.goodE out E /\
+    C05_rt.sub (C05_rt.Done (Conc.hist c) (c_inv w)) E /\ C05_rt.sub E (C05_rt.Ub c (c_res w)).
+Proof. exact C05_rt.rt_sandwich_L. Qed.
+
+(* ... and once all calls have returned MAY is read off the history alone: the values of the Observe calls with
+   c_inv < c_res w *)
+Theorem native_conc_real_time_sandwich_done : forall (g : NativeHist.config) (progs : list (list nop)) (sched : list Z),
+  let c := run_sched lmachine (init_config lmachine (C05_conc.linit g) progs) sched in
+  all_done lmachine c = true ->
+  forall w out, In w (Conc.hist c) -> c_ret w = NOut (list f64) out ->
+  exists E : list f64, C05_rt.goodE out E /\
+    C05_rt.sub (C05_rt.Done (Conc.hist c) (c_inv w)) E /\ C05_rt.sub E (C05_rt.HVb (Conc.hist c) (c_res w)).
+Proof. exact C05_rt.rt_sandwich_done_L. Qed.
